@@ -156,6 +156,7 @@ func runC11(a *A) {
 		}
 	})
 	a.Rule("shape/keyword-case", 3, func() { a.ruleKeywordCase() })
+	a.Rule("flow/no-state-between-list-items", 12, func() { a.ruleNoStateBetweenListItems("rsql") })
 	a.Rule("shape/layout-and-case", 2, func() {
 		li := a.Method("rsql", "Lexer", "lookupIdent")
 		// the switch tag derives from strings.ToUpper/ToLower of the identifier parameter
@@ -335,4 +336,176 @@ func (a *A) ruleKeywordCase() {
 	if n == 0 {
 		a.Und("keyword-lookup", token.NoPos, "no keyword table lookup found in package rsql")
 	}
+}
+
+// ruleNoStateBetweenListItems: a parser loop that appends one element per list item (ORDER BY keys,
+// SELECT items, GROUP BY fields, JOIN pairs, ...) must build every element from state initialised in
+// that iteration. A scalar that reaches a field of the appended element through a phi at the header
+// of the appending loop is carried over from the previous item (ORDER BY a DESC, b would sort b
+// descending). The accumulated slice itself and loop counters used as ordinals are loop-carried by
+// nature and are not element state: only values stored into fields of the appended composite count.
+func (a *A) ruleNoStateBetweenListItems(pkgs ...string) int {
+	inPkgs := map[*ssa.Package]bool{}
+	for _, p := range pkgs {
+		inPkgs[a.Pkg(p)] = true
+	}
+	n := 0
+	for _, fn := range a.ModFuncs {
+		if fn.Pkg == nil || !inPkgs[fn.Pkg] || fn.Blocks == nil {
+			continue
+		}
+		allInstrs(fn, func(in ssa.Instruction) {
+			c, ok := in.(*ssa.Call)
+			if !ok {
+				return
+			}
+			cc, ok := isBuiltinCall(c, "append")
+			if !ok {
+				return
+			}
+			elems := appendedElems(cc)
+			if len(elems) != 1 {
+				return
+			}
+			// innermost natural loop containing the append
+			b := c.Block()
+			var head *ssa.BasicBlock
+			for h := b; h != nil; h = h.Idom() {
+				isHead := false
+				for _, p := range h.Preds {
+					if h.Dominates(p) && (p == b || reachesAvoiding(b, p, h) || b == h) {
+						isHead = true
+					}
+				}
+				if isHead {
+					head = h
+					break
+				}
+			}
+			if head == nil {
+				return
+			}
+			// the accumulator must be loop-carried through that header (one element per iteration)
+			acc := false
+			for _, l := range phiLeavesUpTo(cc.Args[0], head) {
+				if l {
+					acc = true
+				}
+			}
+			if !acc {
+				return
+			}
+			// element: composite literal local
+			ev := elems[0]
+			var al *ssa.Alloc
+			if ld, ok := ev.(*ssa.UnOp); ok && ld.Op == token.MUL {
+				al, _ = ld.X.(*ssa.Alloc)
+			}
+			if al == nil {
+				return
+			}
+			n++
+			construct := fname(fn) + "#item@" + strings.TrimPrefix(al.Type().String(), "*")
+			var leaks []string
+			for _, r := range *al.Referrers() {
+				fa, ok := r.(*ssa.FieldAddr)
+				if !ok {
+					continue
+				}
+				for _, rr := range *fa.Referrers() {
+					st, ok := rr.(*ssa.Store)
+					if !ok || st.Addr != ssa.Value(fa) {
+						continue
+					}
+					if phi := carriedBy(st.Val, head); phi != nil {
+						fld := derefStruct(al.Type()).Field(fa.Field).Name()
+						leaks = append(leaks, fld+" <- "+phi.Comment)
+					}
+				}
+			}
+			sort.Strings(leaks)
+			a.Check(len(leaks) == 0, construct, c.Pos(),
+				"every field of the appended element is built from state of its own iteration",
+				"field(s) of the appended element carry a value over from the previous list item: "+strings.Join(leaks, "; ")+" (initialised before the loop, not per item)")
+		})
+	}
+	return n
+}
+
+// phiLeavesUpTo: does slice value v derive (through append bases and phis) from a phi in block head?
+func phiLeavesUpTo(v ssa.Value, head *ssa.BasicBlock) []bool {
+	seen := map[ssa.Value]bool{}
+	var out []bool
+	var walk func(x ssa.Value, d int)
+	walk = func(x ssa.Value, d int) {
+		if x == nil || seen[x] || d > 10 {
+			return
+		}
+		seen[x] = true
+		switch y := x.(type) {
+		case *ssa.Phi:
+			if y.Block() == head {
+				out = append(out, true)
+				return
+			}
+			for _, e := range y.Edges {
+				walk(e, d+1)
+			}
+		case *ssa.Call:
+			if cc, ok := isBuiltinCall(y, "append"); ok {
+				walk(cc.Args[0], d+1)
+			}
+		case *ssa.UnOp:
+			if al, ok := y.X.(*ssa.Alloc); ok && y.Op == token.MUL {
+				// spilled local: allocated outside the loop and stored inside it
+				if !head.Dominates(al.Block()) || al.Block() == head {
+					out = append(out, true)
+				}
+			}
+			if fa, ok := y.X.(*ssa.FieldAddr); ok && y.Op == token.MUL {
+				_ = fa
+				out = append(out, true) // accumulates into a field (stmt.Fields = append(stmt.Fields, …))
+			}
+		}
+	}
+	walk(v, 0)
+	return out
+}
+
+// carriedBy: the phi at block head (or spilled variable declared outside the loop) that scalar v
+// derives from without passing through a call; nil if none.
+func carriedBy(v ssa.Value, head *ssa.BasicBlock) *ssa.Phi {
+	seen := map[ssa.Value]bool{}
+	var found *ssa.Phi
+	var walk func(x ssa.Value, d int)
+	walk = func(x ssa.Value, d int) {
+		if x == nil || seen[x] || d > 12 || found != nil {
+			return
+		}
+		seen[x] = true
+		switch y := x.(type) {
+		case *ssa.Phi:
+			if y.Block() == head {
+				// carried only if an in-loop edge feeds it with something other than itself/a constant reset
+				found = y
+				return
+			}
+			for _, e := range y.Edges {
+				walk(e, d+1)
+			}
+		case *ssa.Convert:
+			walk(y.X, d+1)
+		case *ssa.ChangeType:
+			walk(y.X, d+1)
+		case *ssa.BinOp:
+			walk(y.X, d+1)
+			walk(y.Y, d+1)
+		case *ssa.UnOp:
+			if y.Op != token.MUL {
+				walk(y.X, d+1)
+			}
+		}
+	}
+	walk(v, 0)
+	return found
 }
